@@ -5,7 +5,7 @@ join (quiescent point); real TCP connections: the counters must move exactly by 
 the Cmd.v model assigns to the replies actually sent."""
 import json
 from .. import common as C
-from . import conncheck
+from . import conncheck, wirecheck
 
 COQ_TARGETS = ["Corr/ConnCorr.vo"]
 
@@ -50,5 +50,7 @@ def run(ctx):
         "traces_validated_against_impl": points,
     })
     conncheck.run_conn(ctx, {"C15"})
+    # all three transports of one real server process: GET /metrics at every quiescent point vs what the clients were told
+    wirecheck.run_wire(ctx, "C15")
     ctx.assumptions += ["atomicity of AtomicU64::fetch_add (total modification order per counter) - the interleaving model's premise",
                         "a quiescent point needs a happens-before edge to the reader (thread join / completed request), as the property itself does"]
